@@ -227,3 +227,43 @@ def add_proc(cov, pm, preps):
     cov["rule"] += ". " + PROC_RULE
     cov["h_proc"] = proc_summary(pm, preps)
     cov["exhaustive"] = bool(cov.get("exhaustive")) and pm["exhaustive"]
+
+
+LIBSTATE_SRCS = ["lib/random/random.c", "lib/random/xxtea.c", "lib/topology/topology.c"]
+
+
+def build_libstate(d):
+    """s_libstate: the model library compiled with -fsanitize=thread only to get a call-back at every memory access (the sanitizer
+    run time is NOT linked; the harness defines the __tsan_* entry points and uses them to find and to interleave at hidden state)."""
+    d = os.path.join(d, "libstate")
+    os.makedirs(d, exist_ok=True)
+    base = list(vc.BASE_FLAGS) + ["-w", "-g", "-D" + vc.GUARD, "-I" + vc.SRC, "-I" + os.path.join(vc.VERIF, "harness")]
+    objs = []
+    for f in LIBSTATE_SRCS:
+        o = os.path.join(d, os.path.basename(f)[:-2] + ".o")
+        p = subprocess.run(["gcc"] + base + ["-fsanitize=thread", "-c", os.path.join(vc.SRC, f), "-o", o], capture_output=True, text=True)
+        if p.returncode:
+            raise vc.EngineError(p.stderr[-2000:])
+        objs.append(o)
+    out = os.path.join(d, "s_libstate")
+    p = subprocess.run(["gcc"] + base + [os.path.join(vc.VERIF, "harness/s_libstate.c")] + objs + ["-o", out, "-lm"], capture_output=True, text=True)
+    if p.returncode:
+        raise vc.EngineError(p.stderr[-2000:])
+    return out
+
+
+def libstate_part(pid, d):
+    """Runs s_libstate; returns (report, totals, violations)."""
+    rep = vc.run_seqx(build_libstate(d), [], timeout=600)
+    tot, viol = vc.seqx_collect(pid, "libstate", [rep])
+    if not viol and tot["evaluations"] < 400:
+        raise vc.EngineError("vacuous: s_libstate made hardly any injected call")
+    return rep, tot, viol
+
+
+LIBSTATE_RULE = ("s_libstate: 15 library calls (RandomU64, Random, Poisson, Normal, RandomRange x2, RandomRangeNonUniform, Gamma x2, Zipf with "
+                 "three skews, GetReceiver(RANDOM) on square/hexagon/graph) x the same 15 as the other LP's call: LP 0's stream of three calls "
+                 "with one complete call of LP 1 injected between any two of them and at every access of the library to memory that is "
+                 "neither stack, LP context nor argument and that it ever writes (call-backs obtained by compiling the library with "
+                 "-fsanitize=thread and defining the __tsan_* entry points in the harness: one preemption inside the call, exhaustively); "
+                 "LP 0's results and generator state must be those of its stand-alone stream, LP 1's result that of its own")
